@@ -88,6 +88,7 @@ type chain struct {
 	curU     *keys.Key
 	curR     *keys.Key
 	lastRecI int // index in ops of the last recover (-1 none)
+	deactOpt hist.Opt
 }
 
 func (c *chain) key(t *rapid.T) *keys.Key {
@@ -105,6 +106,9 @@ func newChain(t *rapid.T, pool string) *chain {
 	return c
 }
 
+// windowed makes the chain's deactivate carry a signed anchoring window that is open at every ledger time used here.
+func (c *chain) windowed() { c.deactOpt = hist.Opt{From: 1, Until: 1 << 40} }
+
 func (c *chain) update(t *rapid.T, name string) {
 	n := c.key(t)
 	c.ops = append(c.ops, hist.NewSigned(hist.SignedSpec{Name: name, Type: "update", Suffix: c.suffix, Code: c.code, Reveal: c.curU, NextUpd: n, Markers: map[string]interface{}{name: "v"}}))
@@ -121,7 +125,7 @@ func (c *chain) recover(t *rapid.T, name string, markers map[string]interface{})
 }
 
 func (c *chain) deactivate(name string) {
-	c.ops = append(c.ops, hist.NewSigned(hist.SignedSpec{Name: name, Type: "deactivate", Suffix: c.suffix, Code: c.code, Reveal: c.curR}))
+	c.ops = append(c.ops, hist.NewSigned(hist.SignedSpec{Name: name, Type: "deactivate", Suffix: c.suffix, Code: c.code, Reveal: c.curR, Opt: c.deactOpt}))
 }
 
 // extension draws 1-12 arbitrary later operations: valid operations signed with every key that was ever
@@ -224,12 +228,15 @@ func buildDeactivated(t *rapid.T, pool string) (*chain, []*hist.Anchored) {
 			ch.update(t, fmt.Sprintf("u%d", i+1))
 		}
 	}
+	if rapid.IntRange(0, 2).Draw(t, "windowedDeactivate") == 0 {
+		ch.windowed()
+	}
 	ch.deactivate("D")
 	return ch, anchorSeq(ch.ops, 20, "h")
 }
 
 func TestDeactivateTerminal(t *testing.T) {
-	ev.Rule(chkDeact, "rapid: prefix = create + 0-5 valid updates/recovers + valid deactivate D (all key types, both hash algorithms); extension = 1-12 operations anchored strictly after D at drawn coordinates, the last 0-2 of them pending (unpublished) with a wall-clock stamp after or before the ledger times: valid updates/recovers/deactivates signed with every key that was ever revealed or committed in the prefix, duplicate creates (same/other delta), forgeries; oracle: Resolve = deactivated, empty document, no commitments; non-trivial = the extension holds >= 1 validly signed non-create operation")
+	ev.Rule(chkDeact, "rapid: prefix = create + 0-5 valid updates/recovers + valid deactivate D (one in three with a signed anchoring window that is open when D is anchored; all key types, both hash algorithms), resolved one time in three on a node whose server-clock validator considers every signed window expired; extension = 1-12 operations anchored strictly after D at drawn coordinates, the last 0-2 of them pending (unpublished) with a wall-clock stamp after or before the ledger times: valid updates/recovers/deactivates signed with every key that was ever revealed or committed in the prefix, duplicate creates (same/other delta), forgeries; oracle: Resolve = deactivated, empty document, no commitments; non-trivial = the extension holds >= 1 validly signed non-create operation")
 	ev.Rapid(t, chkDeact, 400, 4000, func(t *rapid.T) {
 		ch, prefix := buildDeactivated(t, "c04d")
 		ext := ch.extension(t)
@@ -251,6 +258,8 @@ func TestDeactivateTerminal(t *testing.T) {
 			h = append(h, op.At(base+uint64(perm[i]/2), uint64(perm[i]), fmt.Sprintf("ref-x%d", i), 0))
 		}
 		c := &Case{Case: *hist.NewCase(ch.suffix, ch.code, 0, h), PrefixLen: len(prefix), Mode: "deactivate"}
+		// the node's clock may long have left every signed window: what is anchored stays what it is
+		c.ExpiredClock = rapid.IntRange(0, 2).Draw(t, "expiredClock") == 0
 		kind, sig, msg := evalDeactivate(c)
 		n := wouldApply(c)
 		ev.Record(chkDeact, n > 0, caseID(c), fmt.Sprintf("would-apply:%d", min(n, 4)), fmt.Sprintf("prefix:%d", len(prefix)))
